@@ -18,7 +18,8 @@ per_round = ', '.join(f"{sum(1 for m in metas if m.get('strengthened') and (int(
 themes = {1: 'any realistic break', 2: 'the less obvious corners', 3: 'CONJUNCTIONS of at least two specific conditions',
           4: 'state leaking between IKE_SAs / peers / messages, long-lived daemons, hand-over and clean-up paths, values at the edge of a representation',
           5: 'what a simulation like this one is structurally inclined to miss (what the harness replaces or fixes, several events in one loop turn, boundary arithmetic after hundreds of exchanges, rarely configured table entries, two modules cooperating, the second time something happens)',
-          6: 'legal but unusual peers, kernel messages and configuration spellings that pyikev2 itself never produces'}
+          6: 'legal but unusual peers, kernel messages and configuration spellings that pyikev2 itself never produces',
+          7: 'changes placed in the 46 functions no earlier change had touched, disguised as improvements (optimisation, simplification, hardening, modernisation)'}
 head = f"""## 6. Seeded property-breaking changes and which checks catch them
 
 {n} changes, {2 * len(rounds)} per property in {len(rounds)} rounds, each written by a fresh sub-agent that saw only the property text and a scratch worktree of /repo
